@@ -343,7 +343,7 @@ def cut_loop(text, toks, L, fname, spec, uid):
     for a, b in rngs:
         assigned |= assigned_idents(toks, a, b)
     declared = set(spec.get('scalars', [])) | set(spec.get('havoc_targets', [])) | set(spec.get('local_to_body', []))
-    missing = assigned - declared
+    missing = set(x for x in assigned - declared if not (x.startswith('V_dec0_') or x == 'V_nd'))
     if missing:
         raise WeaveError('%s: assigned in loop but not in spec (scalars/havoc_targets/local_to_body): %s'
                          % (tag, ' '.join(sorted(missing))))
@@ -355,7 +355,7 @@ def cut_loop(text, toks, L, fname, spec, uid):
     for o in spec.get('objects', []):
         hv.append('__CPROVER_havoc_object((void*)(%s));' % o)
     for o, sz in spec.get('slices', []):
-        hv.append('__CPROVER_havoc_slice((void*)(%s), (%s));' % (o, sz))
+        hv.append('if ((%s) > 0) __CPROVER_havoc_slice((void*)(%s), (%s));' % (sz, o, sz))
     A = lambda c, what: '__CPROVER_assert(%s, "%s %s");' % (c, spec.get('props', ''), tag + '.' + what)
     back = []
     back.append(A(inv, 'step: invariant preserved'))
@@ -372,7 +372,7 @@ def cut_loop(text, toks, L, fname, spec, uid):
     end = spec.get('end', '')
     after = spec.get('after', '')
     o = []
-    o.append('{ /* woven cut of %s (%s loop) */' % (tag, L.kind))
+    o.append('{ /* woven cut: %s */' % tag)
     if L.kind == 'for' and init.strip():
         o.append(init + ';')
     o.extend(pre)
@@ -414,6 +414,19 @@ def weave(text, spec):
         fs = spec['functions'][fname]
         toks = tokenize(text)
         i, lb, rb = find_function(toks, fname)
+        # ghost insertions anchored by regex (must-fire rules): each pattern must match exactly once in
+        # the function text and the replacement must keep the matched text (\\g<0>) verbatim.
+        for pat, rep in fs.get('inserts', []):
+            a, b = toks[lb][2], toks[rb][3]
+            body = text[a:b]
+            if '\\g<0>' not in rep:
+                raise WeaveError('%s: insert rule %r does not keep the matched text' % (fname, pat))
+            nb, cnt = re.subn(pat, rep, body)
+            if cnt != 1:
+                raise WeaveError('%s: insert anchor %r matched %d times (must be exactly 1)' % (fname, pat, cnt))
+            text = text[:a] + nb + text[b:]
+            toks = tokenize(text)
+            i, lb, rb = find_function(toks, fname)
         loops = function_loops(toks, lb, rb)
         lspecs = fs.get('loops', {})
         n_loops = len(loops)
